@@ -145,5 +145,79 @@ Proof.
   - destruct u; try (cbn in Hm; discriminate). rewrite mtch_slice in Hm.
     destruct (N.eqb ta t); [|discriminate]. eapply mall_extends; eauto.
 Qed.
+
+Definition senv (d : data) : env := lookup d.
+
+Lemma Forall2_mono_in {A B} (R R' : A -> B -> Prop) l l' :
+  Forall (fun a => forall b, R a b -> R' a b) l -> Forall2 R l l' -> Forall2 R' l l'.
+Proof. intros HF H2. induction H2; inversion HF; subst; constructor; auto. Qed.
+
+Lemma Inst_mono (s s' : env) : (forall x c, s x = Some c -> s' x = Some c) ->
+  forall p t, Inst s p t -> Inst s' p t.
+Proof.
+  intros Hs p. induction p as [a|b|ta a|ta fs IHfs|ta p IHp|ta vs IHvs] using val_ind'; intros u HI;
+    inversion HI; subst;
+    try match goal with Hm : is_meta_ident _ = Some _ |- _ => solve [eapply I_meta; eauto] end.
+  - apply I_nil; assumption.
+  - constructor.
+  - constructor.
+  - apply I_struct. eapply Forall2_mono_in; eauto.
+  - apply I_ptr; auto.
+  - apply I_slice. eapply Forall2_mono_in; eauto.
+Qed.
+
+Lemma extends_trans d1 d2 d3 : extends d1 d2 -> extends d2 d3 -> extends d1 d3.
+Proof. unfold extends; eauto. Qed.
+
+Lemma mall_sound ps :
+  Forall (fun p => forall t d d', mtch p t d = Some d' -> Inst (senv d') p t) ps ->
+  forall us d d', mall ps us d = Some d' -> Forall2 (Inst (senv d')) ps us.
+Proof.
+  induction 1 as [|p ps Hp Hps IHps]; intros [|u us] d d' H; cbn [mall] in H; try discriminate.
+  - constructor.
+  - destruct (mtch p u d) as [d1|] eqn:E; [|discriminate]. constructor.
+    + eapply Inst_mono; [|eapply Hp; eauto]. intros x c Hx.
+      eapply (mall_extends ps); [|exact H|exact Hx].
+      clear. induction ps; constructor; auto. intros; eapply mtch_extends; eauto.
+    + eapply IHps; eauto.
+Qed.
+
+Lemma eqvb_refl v : eqvb v v = true.
+Proof.
+  induction v as [a|b|ta a|ta fs IHfs|ta p IHp|ta vs IHvs] using val_ind'; cbn [eqvb].
+  - apply N.eqb_refl.
+  - destruct b; reflexivity.
+  - rewrite !N.eqb_refl. reflexivity.
+  - rewrite N.eqb_refl. cbn [andb]. induction IHfs as [|x xs Hx Hxs IH]; [reflexivity|]. rewrite Hx. exact IH.
+  - rewrite N.eqb_refl, IHp. reflexivity.
+  - rewrite N.eqb_refl. cbn [andb]. induction IHvs as [|x xs Hx Hxs IH]; [reflexivity|]. rewrite Hx. exact IH.
+Qed.
+
+Theorem mtch_sound p : forall t d d', mtch p t d = Some d' -> Inst (senv d') p t.
+Proof.
+  induction p as [a|b|ta a|ta fs IHfs|ta p IHp|ta vs IHvs] using val_ind'; intros u d d' Hm.
+  - cbn [mtch is_meta_ident] in Hm. destruct u; try discriminate.
+    destruct (N.eqb_spec a t); [|discriminate]. subst. apply I_nil. reflexivity.
+  - cbn [mtch is_meta_ident] in Hm. destruct u; try discriminate.
+    destruct (Bool.eqb b valid) eqn:E; [|discriminate]. apply Bool.eqb_prop in E. subst. constructor.
+  - cbn [mtch is_meta_ident] in Hm. destruct u; try discriminate.
+    destruct (N.eqb_spec ta t); cbn in Hm; [|discriminate].
+    destruct (N.eqb_spec a a0); [|discriminate]. subst. constructor.
+  - destruct u; try (cbn in Hm; discriminate). rewrite mtch_struct in Hm.
+    destruct (N.eqb_spec ta t); [|discriminate]. subst. apply I_struct. eapply mall_sound; eauto.
+  - destruct (is_meta_ident (Ptr ta p)) eqn:Em.
+    + unfold mtch in Hm; fold mtch in Hm. rewrite Em in Hm.
+      destruct (lookup d n) eqn:El.
+      * destruct (eqvb v u) eqn:Ev; [|discriminate]. inversion Hm; subst. eapply I_meta; eauto.
+      * inversion Hm; subst. eapply I_meta; eauto.
+        -- unfold senv. apply lookup_cons_eq.
+        -- apply eqvb_refl.
+    + unfold mtch in Hm; fold mtch in Hm. rewrite Em in Hm. destruct u; try discriminate.
+      destruct (N.eqb_spec ta t); [|discriminate]. subst. apply I_ptr; auto. eapply IHp; eauto.
+  - destruct u; try (cbn in Hm; discriminate). rewrite mtch_slice in Hm.
+    destruct (N.eqb_spec ta t); [|discriminate]. subst. apply I_slice. eapply mall_sound; eauto.
+Qed.
+
 End M.
 Print Assumptions mtch_extends.
+Print Assumptions mtch_sound.
